@@ -83,7 +83,7 @@ def main():
         s = open(p).read()
         assert s.count(old) >= 1, "pattern not found for %s" % name
         open(p, "w").write(s.replace(old, new, 1))
-        env = dict(os.environ, TWZ_REPO=tmp)
+        env = dict(os.environ, TWZ_REPO=tmp, TWZ_EVIDENCE_DIR=os.path.join(tmp, "evidence"), TWZ_REPLAY_DIR=os.path.join(tmp, "replays"))
         rc_all = {}
         for pid in props:
             r = subprocess.run(["/venv/bin/python", os.path.join(ROOT, "check.py"), pid, "--tier", os.environ.get("TIER", "quick")], env=env, capture_output=True, text=True)
@@ -95,8 +95,6 @@ def main():
         return 0
     finally:
         shutil.rmtree(tmp, ignore_errors=True)
-        # evidence files were rewritten by the mutant runs: restore them from git
-        subprocess.run(["git", "-C", ROOT, "checkout", "--", "evidence"], capture_output=True)
 
 
 if __name__ == "__main__":
